@@ -33,8 +33,8 @@ def check(run):
     run.rule = ("TLC enumerates every forest of <= 3 mounted apps from a pool of prefixes that are string-prefixes of each other / nested / multi-segment, "
                 "every assignment of (configured, failing) error handlers incl. the root, every request path (prefix + tail) and error kind, and selects the handler "
                 "(innermost configured one containing the path on a segment boundary); each scenario runs repeatedly on apps mounted parent-first and child-first, "
-                "error raised before and after the mounts. Non-trivial = scenarios whose selected handler belongs to a mounted app.")
+                "error raised by root middleware before the mounts, after them, and by a handler inside the mounted apps. Non-trivial = scenarios whose selected handler belongs to a mounted app.")
     run.extra["driver_summary"] = summary
     run.extra["violations_by_check"] = dict(collections.Counter(v["check"] for v in run.violations))
     run.assumptions = ["lower-case paths only (the statement does not say whether prefix containment folds case)",
-                       "errors are raised by root-level middleware registered before or after the mounts"]
+                       "errors are raised by root-level middleware before / after the mounts or by the first middleware of the mounted apps"]
